@@ -64,6 +64,7 @@ type Seq struct {
 	hookOn      bool
 	bulkHooks   bool // several chunks: file mutations of earlier chunks precede later hooks
 	Hooks       Hooks
+	KnownSample map[string]string
 }
 
 // Hooks lets other scenarios (crash, iofault, diff, ...) observe the run.
